@@ -453,7 +453,10 @@ class Flow:
                 else:
                     nidx = z3.Const('%s.idx@%s' % (obj.name, s1.gen), exe.sem.idx_sort())
                     sn = simp(v.isnull)
-                    isn = v.isnull if (z3.is_false(sn) or z3.is_true(sn)) else z3.Bool('%s.isnull@%s' % (obj.name, s1.gen))
+                    if obj.kind == 'local' and (z3.is_false(sn) or z3.is_true(sn)):
+                        isn = v.isnull      # pointer arithmetic on a local never produces NULL
+                    else:
+                        isn = z3.Bool('%s%s.isnull@%s' % (obj.name, ''.join('.' + x for x in path), s1.gen))
                     s1.conc[k] = v.with_(idx=v.idx[:-1] + (nidx,), isnull=isn)
 
     def _cutpoint(self, n, st, cond, body, inc, is_do, ordn, lc):
